@@ -350,6 +350,8 @@ def run(run: Run):
 def falsify(run, group, info):
     from vf.genlab import run_isolated
     f = run_isolated("props.C05_native", "scenarios")
+    _g = run_isolated("props.C05_native", "order_bounded")
+    f = {"cases": f.get("cases", 0) + _g.get("cases", 0), "failures": list(f["failures"]) + list(_g["failures"])}
     run.bounded.append({"what": "falsifier: generated library, flattened vs explicit request on the wire (sync + asyncio)", "cases": f.get("cases", 0)})
     fails = [x for x in f["failures"] if not x.get("known")]
     return ({"kind": "flatten", "failures": fails[:6]}, True) if fails else (None, False)
@@ -359,5 +361,7 @@ def replay(path):
     import json
     from vf.genlab import run_isolated
     f = run_isolated("props.C05_native", "scenarios")
+    _g = run_isolated("props.C05_native", "order_bounded")
+    f = {"cases": f.get("cases", 0) + _g.get("cases", 0), "failures": list(f["failures"]) + list(_g["failures"])}
     print("flatten scenarios ->", json.dumps(f["failures"][:4]) if f["failures"] else "conform")
     return 1 if [x for x in f["failures"] if not x.get("known")] else 0
